@@ -276,13 +276,90 @@ func concMix(c *ctx, nG, nOps int) {
 			}
 		}(j)
 	}
+	// burst phase: inputs are prepared BEFORE the start signal; during the concurrent phase every goroutine only calls the
+	// library in a tight loop on its own values (maximal overlap), remembering each DISTINCT result per input.  Afterwards one
+	// event per (input, distinct result) is recorded - a correct library yields exactly one result per input - and the
+	// trace specification decides each of them.
+	type micIn struct {
+		phy  *lorawan.PHYPayload
+		p    micParams
+		up   bool
+		mt   int
+		seen map[[4]byte]bool
+	}
+	type encIn struct {
+		key  lorawan.AES128Key
+		up   bool
+		da   lorawan.DevAddr
+		fcnt uint32
+		in   []byte
+		seen map[string]bool
+	}
+	mics := make([][]*micIn, nG)
+	encs := make([][]*encIn, nG)
+	for i := 0; i < nG; i++ {
+		g := &ctx{rnd: newRand(c.rnd.Int63()), cleanOnly: true}
+		for k := 0; k < 5; k++ {
+			v := g.genDataFrame(false)
+			mt := num(v["mtype"])
+			p := micParams{ver: g.rnd.Intn(2), conf: g.edge32(), txdr: uint8(g.rnd.Intn(256)), txch: uint8(g.rnd.Intn(256)), fkey: g.key(), skey: g.key()}
+			mics[i] = append(mics[i], &micIn{phy: valToPhy(v, false), p: p, up: mtypeUp(mt), mt: mt, seen: map[[4]byte]bool{}})
+			e := &encIn{key: g.key(), up: g.rnd.Intn(2) == 0, fcnt: g.edge32(), in: g.bytesN(g.pick(1, 15, 16, 17, 33, 64)), seen: map[string]bool{}}
+			copy(e.da[:], g.bytesN(4))
+			encs[i] = append(encs[i], e)
+		}
+	}
+	var bg sync.WaitGroup
+	burst := make(chan struct{})
+	for i := 0; i < nG; i++ {
+		bg.Add(1)
+		go func(i int) {
+			defer bg.Done()
+			<-burst
+			for it := 0; it < 400*nOps; it++ {
+				m := mics[i][it%len(mics[i])]
+				var err error
+				if m.up {
+					err = m.phy.SetUplinkDataMIC(lorawan.MACVersion(m.p.ver), m.p.conf, m.p.txdr, m.p.txch, m.p.fkey, m.p.skey)
+				} else {
+					err = m.phy.SetDownlinkDataMIC(lorawan.MACVersion(m.p.ver), m.p.conf, m.p.skey)
+				}
+				if err == nil {
+					m.seen[[4]byte(m.phy.MIC)] = true
+				}
+				e := encs[i][it%len(encs[i])]
+				if out, err := lorawan.EncryptFRMPayload(e.key, e.up, e.da, e.fcnt, append([]byte{}, e.in...)); err == nil {
+					e.seen[string(out)] = true
+				}
+			}
+		}(i)
+	}
+	close(burst)
 	close(start)
 	wg.Wait()
+	bg.Wait()
 	close(stop)
 	rg.Wait()
 	for _, b := range bufs {
 		c.w.Write(b.Bytes())
 		c.count++
+	}
+	for i := 0; i < nG; i++ {
+		for _, m := range mics[i] {
+			for mic := range m.seen {
+				m.phy.MIC = lorawan.MIC(mic)
+				ev := M{"ev": "setmic", "dir": dirOf(m.mt), "err": "", "frame": phyToVal(m.phy), "burst": len(m.seen)}
+				m.p.fields(ev)
+				c.emit(ev)
+			}
+		}
+		for _, e := range encs[i] {
+			for out := range e.seen {
+				out2, err2 := lorawan.EncryptFRMPayload(e.key, e.up, e.da, e.fcnt, []byte(out)) // the involution leg, observed after the burst
+				c.emit(M{"ev": "encfrm", "key": bs(e.key[:]), "up": e.up, "devaddr": bs(e.da[:]), "fcnt": le32(e.fcnt), "in": bs(e.in), "err": "",
+					"out": bs([]byte(out)), "err2": errStr(err2), "out2": bs(out2), "burst": len(e.seen)})
+			}
+		}
 	}
 }
 
